@@ -143,7 +143,9 @@ func ruleRegistryWriters(c *Ctx, rule string) {
 		if fa := info.A.Facts[f]; fa != nil {
 			for _, a := range fa.Accesses {
 				if g := globalByName(c, a.Global); g != nil {
-					if _, isMap := g.Type().(*types.Pointer).Elem().Underlying().(*types.Map); isMap {
+					// a registry is a table: a map, or an array / slice indexed by direction and CID
+					switch g.Type().(*types.Pointer).Elem().Underlying().(type) {
+					case *types.Map, *types.Array, *types.Slice:
 						regs[a.Global] = true
 					}
 				}
@@ -162,7 +164,7 @@ func ruleRegistryWriters(c *Ctx, rule string) {
 	walk(get)
 	names := sortedStr(regs)
 	if len(names) == 0 {
-		r.Unknown(rule, "registries", c.Prog.Rel(get.Pos()), "GetMACPayloadAndSize reads a package-level map", "none found among its accesses")
+		r.Unknown(rule, "registries", c.Prog.Rel(get.Pos()), "GetMACPayloadAndSize reads a package-level table", "none found among its accesses")
 		return
 	}
 	// helpers only RegisterProprietaryMACCommand calls count as part of it
